@@ -823,6 +823,230 @@ def run_case(recipe, res, log=None):
 
 
 # ================================================================================================
+# sequences: "the handler's totality and failure accounting do not depend on what the sender did before"
+#
+# k = 2..4 datagrams to ONE live protocol object, from one sender (the addressee of the in-flight requests, or a
+# stranger) or alternating between the two, the virtual clock advancing 0 / 61 / 721 s between datagrams (within
+# the failure window, past the RPC timeout, past CHECK_REFRESH_INTERVAL).  Every datagram is judged as a delta
+# against the state right before it; at the end a third party must still get its ping answered.
+
+SEQ_SYMBOLS = ('V', 'R', 'U', 'E', 'M', 'O', 'D')
+SEQ_SYMBOL_NAMES = {'V': 'valid ping', 'R': 'valid response to an in-flight request', 'U': 'undecodable (truncated ping)',
+                    'E': 'decodable envelope, schema-invalid request (findNode with a 47-byte key)',
+                    'M': 'unknown method', 'O': 'oversize unknown method (2000 bytes)', 'D': 'duplicate of the previous datagram'}
+SEQ_GAPS = (0, 61, 721)
+SEQ_SENDERS = ('C3', 'S')
+THIRD_PARTY = (h48(b'c17-third-party'), '9.9.9.9', 6000)
+IN_FLIGHT_ORDER = ('ping', 'findNode', 'findValue', 'store')
+
+
+def seq_datagram(f, sym, pos, sender, prev, n_resp):
+    from refs import bencode as ref
+    nid = ACTORS[sender][0]
+    rid = h20(b'seq-%d' % pos)
+    if sym == 'D':
+        return prev
+    if sym == 'V':
+        return ref.encode({0: 0, 1: rid, 2: nid, 3: b'ping', 4: [dict(KW)]})
+    if sym == 'R':
+        which = IN_FLIGHT_ORDER[n_resp % 4]
+        payload = {'ping': b'pong', 'findNode': [[h48(b'c17-n1'), b'9.9.9.1', 4444]],
+                   'findValue': {b'token': h48(b'c17-fresh-token'), b'contacts': [], b'p': 0, b'protocolVersion': 1},
+                   'store': b'OK'}[which]
+        return ref.encode({0: 1, 1: f.pending[which], 2: nid, 3: payload})
+    if sym == 'U':
+        return ref.encode({0: 0, 1: rid, 2: nid, 3: b'ping', 4: [dict(KW)]})[:-3]
+    if sym == 'E':
+        return ref.encode({0: 0, 1: rid, 2: nid, 3: b'findNode', 4: [BLOB_C[:47], dict(KW)]})
+    if sym == 'M':
+        return ref.encode({0: 0, 1: rid, 2: nid, 3: b'frobnicate', 4: [dict(KW)]})
+    if sym == 'O':
+        return ref.encode({0: 0, 1: rid, 2: nid, 3: b'm' * 2000, 4: [dict(KW)]})
+    raise ValueError(sym)
+
+
+def run_sequence(recipe, res, log=None):
+    """recipe = ('seq', first sender, 'one'|'two', [symbols], [gaps between them])."""
+    from refs import bencode as ref
+    _, first, mode, symbols, gaps = recipe
+    other = [s for s in SEQ_SENDERS if s != first][0]
+    f = build_fixture(in_flight=True)
+    proto, pm, tr, loop = f.proto, f.pm, f.transport, f.loop
+    failures = {}
+    real_report = pm.report_failure
+
+    def counting_report_failure(address, udp_port):
+        failures[(address, udp_port)] = failures.get((address, udp_port), 0) + 1
+        return real_report(address, udp_port)
+    pm.report_failure = counting_report_failure      # observation only: the real method still does the work
+    violated = False
+    shape = ''.join(symbols)
+
+    def say(s):
+        if log is not None:
+            log.append(s)
+
+    def violation(sig, what):
+        nonlocal violated
+        violated = True
+        res.violation(sig, what, {'sequence': list(recipe)})
+        say('VIOLATION ' + what)
+    try:
+        res.count('evaluations')
+        res.count('executions')
+        res.count('family_sequence')
+        res.distinct_add('nontrivial', ('seq', first, mode, shape, tuple(gaps)))
+        spec, n_resp, last_by_sender = None, 0, {}
+        for pos, sym in enumerate(symbols):
+            if pos > 0 and gaps[pos - 1] > 0:
+                before = sum(1 for t in f.tasks.values() if t.done())
+                loop.advance(gaps[pos - 1])
+                if sum(1 for t in f.tasks.values() if t.done()) > before:
+                    res.witness('sequence_in_flight_request_timed_out_between_datagrams')
+            else:
+                loop.settle()
+            sender = first if mode == 'one' or pos % 2 == 0 else other
+            nid, ip, port = ACTORS[sender]
+            addr = (ip, port)
+            if sym != 'D':
+                spec = (sym, pos, n_resp)
+                datagram = seq_datagram(f, sym, pos, sender, None, n_resp)
+                if sym == 'R':
+                    n_resp += 1
+            elif mode == 'one' or sender in last_by_sender:
+                # the sender repeats, byte for byte, the last datagram it sent itself
+                datagram = last_by_sender[sender]
+            else:
+                # two senders: the second one sends the same content under its own identity (no node-id spoofing:
+                # whom the node blames for a datagram that claims another contact's id is a separate question,
+                # see spoofed_id_probe)
+                datagram = seq_datagram(f, spec[0], spec[1], sender, None, spec[2])
+            last_by_sender[sender] = datagram
+            verdict = ref.classify(datagram)
+            standing = {True: 'good', False: 'bad', None: 'unknown'}[pm.contact_triple_is_good(nid, ip, port)]
+            desc = (f'datagram {pos + 1} of sequence {shape} (gaps {list(gaps)}, {"one sender" if mode == "one" else "two senders"}, '
+                    f'first {first}): {SEQ_SYMBOL_NAMES[sym]} from {sender}, whose standing is {standing}')
+            say(f'{desc}; t={loop.time():.1f}; reference verdict {verdict.cls} ({verdict.reason})')
+            rt0, ds0, n0, sent0 = canon_routing(proto), canon_store(proto), failures.get(addr, 0), len(tr.sent)
+            raised = guarded_call(proto.datagram_received, datagram, addr)
+            res.count('transitions')
+            res.count('sequence_datagrams')
+            sig = {'mutation': 'sequence', 'symbol': sym, 'sender_standing': standing}
+            if raised == 'hang':
+                violation(dict(sig, kind='handler-hangs', verdict=verdict.cls, reason=verdict.reason),
+                          f'datagram_received did not return within {HANG_CPU_SECONDS} CPU seconds on {desc}')
+                return violated
+            if raised is not None:
+                site = innermost_lbry_site(raised)
+                violation(dict(sig, kind='handler-raises', exc=type(raised).__name__, site=site, verdict=verdict.cls),
+                          f'{type(raised).__name__}({str(raised)[:80]}) escaped datagram_received (raised in {site}) on {desc}')
+                return violated
+            if loop._ready or proto._to_add or proto._to_remove or proto._wakeup_routing_task.is_set():
+                loop.advance(0.5)
+            del loop.exc_contexts[:]
+            rt1, ds1, n1 = canon_routing(proto), canon_store(proto), failures.get(addr, 0)
+            sent = tr.sent[sent0:]
+            replies = []
+            for data, dest in sent:
+                rv = ref.classify(data)
+                replies.append((rv.kind if rv.cls != 'malformed' else 'undecodable', dest))
+            say(f'  returned; failures recorded for the sender by this datagram: {n1 - n0}; routing table changed: {rt1 != rt0}; '
+                f'data store changed: {ds1 != ds0}; datagrams sent: {replies}')
+            if verdict.malformed:
+                res.count('malformed_cases')
+                sig['reason'] = verdict.reason
+                if n1 <= n0:
+                    violation(dict(sig, kind='failure-not-recorded'),
+                              f'no failure recorded for the sender of a malformed datagram ({verdict.reason}): {desc}')
+                elif standing == 'bad':
+                    res.witness('sequence_failure_recorded_for_sender_already_bad')
+                if rt1 != rt0:
+                    violation(dict(sig, kind='state-changed', part='routing_table'),
+                              f'routing table changed by a malformed datagram ({verdict.reason}): {desc}')
+                if ds1 != ds0:
+                    violation(dict(sig, kind='state-changed', part='data_store'),
+                              f'stored announcements changed by a malformed datagram ({verdict.reason}): {desc}')
+                if any(len(data) > MSG_SIZE_LIMIT for data, _ in sent):
+                    violation(dict(sig, kind='oversize-reply'), f'reply larger than {MSG_SIZE_LIMIT} bytes: {desc}')
+                if [r for r in replies if r != ('error', addr)] or len(replies) > 1:
+                    violation(dict(sig, kind='unexpected-reply', reply=sorted({r[0] or 'none' for r in replies})),
+                              f'malformed datagram ({verdict.reason}) answered with {replies}: {desc}')
+            elif sym == 'D' and symbols[pos - 1] == 'R' and mode == 'one' and not replies and rt1 == rt0:
+                res.witness('sequence_duplicate_response_ignored')
+        # afterwards the node must still serve a third party
+        loop.settle()
+        tid, tip, tport = THIRD_PARTY
+        sent0 = len(tr.sent)
+        ping = ref.encode({0: 0, 1: h20(b'seq-third-party'), 2: tid, 3: b'ping', 4: [dict(KW)]})
+        raised = guarded_call(proto.datagram_received, ping, (tip, tport))
+        res.count('transitions')
+        answered = [1 for data, dest in tr.sent[sent0:] if dest == (tip, tport) and ref.classify(data).kind == 'response']
+        say(f'third-party ping after the sequence: raised {raised!r}, answered {bool(answered)}')
+        if raised is not None or not answered:
+            violation({'kind': 'unresponsive-after-sequence', 'mutation': 'sequence',
+                       'exc': type(raised).__name__ if isinstance(raised, Exception) else str(raised)},
+                      f'after sequence {shape} (gaps {list(gaps)}, first sender {first}, {mode}) a valid ping from a third '
+                      f'party was not answered (raised: {raised!r})')
+        else:
+            res.witness('sequence_third_party_ping_answered')
+        return violated
+    finally:
+        drop_fixture(f)
+
+
+def spoofed_id_probe(res):
+    """Observation only (tallied): a schema-invalid request from a stranger's address that claims the node id of
+    a routing-table contact.  The statement says the SENDER's failure is recorded; whether 'sender' is the source
+    address or the contact known under the claimed id is ambiguous, so nothing is enforced here."""
+    from refs import bencode as ref
+    f = build_fixture(in_flight=False)
+    try:
+        c3_id, c3_ip, c3_port = ACTORS['C3']
+        _, s_ip, s_port = ACTORS['S']
+        data = ref.encode({0: 0, 1: h20(b'spoof'), 2: c3_id, 3: b'frobnicate', 4: [dict(KW)]})
+        raised = guarded_call(f.proto.datagram_received, data, (s_ip, s_port))
+        res.count('evaluations')
+        res.count('transitions')
+        if raised is not None:
+            res.violation({'kind': 'handler-raises', 'mutation': 'spoofed-node-id',
+                           'exc': type(raised).__name__ if isinstance(raised, Exception) else 'hang'},
+                          'unknown-method request claiming a contact\'s node id from another address: handler raised',
+                          {'recipe': ['spoof']})
+            return
+        blamed_source = f.pm._rpc_failures.get((s_ip, s_port)) is not None
+        blamed_contact = f.pm._rpc_failures.get((c3_ip, c3_port)) is not None
+        dests = sorted({dest for _, dest in f.transport.sent})
+        res.tally('interpretation_only:spoofed-node-id:failure-recorded-for-' +
+                  ('source-address' if blamed_source else 'claimed-contact-address' if blamed_contact else 'nobody'))
+        if dests == [(c3_ip, c3_port)]:
+            res.tally('interpretation_only:spoofed-node-id:error-reply-sent-to-claimed-contact-address')
+    finally:
+        drop_fixture(f)
+
+
+def sequence_work(item, res):
+    _, first, mode, k, s1, s2, quick = item
+    for tail in itertools.product(SEQ_SYMBOLS, repeat=k - 2):
+        symbols = [s1, s2] + list(tail)
+        gap_sets = [[g] * (k - 1) for g in SEQ_GAPS] if quick else itertools.product(SEQ_GAPS, repeat=k - 1)
+        for gaps in gap_sets:
+            run_sequence(('seq', first, mode, symbols, list(gaps)), res)
+
+
+def sequence_items(quick):
+    items = []
+    for first in SEQ_SENDERS:
+        for mode in ('one', 'two'):
+            for k in (2, 3, 4):
+                if quick and mode == 'two' and k == 4:
+                    continue
+                for s1 in SEQ_SYMBOLS[:-1]:            # nothing to duplicate at the first position
+                    for s2 in SEQ_SYMBOLS:
+                        items.append(('seq', first, mode, k, s1, s2, quick))
+    return items
+
+
+# ================================================================================================
 # work items for part (b)
 
 def handler_work(item, res):
@@ -1125,6 +1349,8 @@ def compact_work(res):
 def work(item, res):
     if item[0] == 'codec':
         codec_work(item, res)
+    elif item[0] == 'seq':
+        sequence_work(item, res)
     else:
         handler_work(item, res)
 
@@ -1171,6 +1397,7 @@ def plan(tier):
             for align in range(4):
                 items.append(('utf8', field, width, align, quick))
     items += [('digits', field, quick) for field in DIGIT_FIELDS]
+    items += sequence_items(quick)
 
     def weight(it):       # rough number of cases, biggest first for a better pool balance
         if it[0] == 'sub2':
@@ -1182,6 +1409,8 @@ def plan(tier):
             return len(bs[it[1]][3]) * 10
         if it[0] == 'codec':
             return 2000
+        if it[0] == 'seq':
+            return 7 ** (it[3] - 2) * (3 if quick else 3 ** (it[3] - 1)) * it[3]
         if it[0] == 'utf8':
             return (2 if it[1] == 'method' else 1) * (1500 if quick else 6000)
         return 300
@@ -1189,6 +1418,9 @@ def plan(tier):
     return items, {'sub2_first_offsets': head2, 'sub3_first_offsets': head3, 'sub2_last_offsets': 0 if quick else HEAD,
                    'sub2_all_offset_pairs_for': all_pairs,
                    'utf8_field_byte_lengths': '216-280, 984-1040, 1230-1410 + 228-264 characters' if quick else '1-1500',
+                   'sequence_lengths': '2-4 (two senders: 2-3)' if quick else '2-4',
+                   'sequence_gaps_s': list(SEQ_GAPS), 'sequence_gap_choice': 'same gap throughout' if quick else 'independent',
+                   'sequence_alphabet': dict(SEQ_SYMBOL_NAMES),
                    'utf8_fields': list(UTF8_FIELDS), 'digit_fields': list(DIGIT_FIELDS),
                    'digit_counts': '230-262, 4290-4310' if quick else '1-300, 4250-4350'}
 
@@ -1213,6 +1445,7 @@ def run(ctx):
             drop_fixture(b)
     except Exception as e:   # noqa
         ctx.res.tally(f'front_door_fixture_failed:{type(e).__name__}')
+    spoofed_id_probe(ctx.res)
     items, bounds = plan(ctx.tier)
     nh = len(handmade())
     ctx.pmap(work, items)
@@ -1239,7 +1472,13 @@ def run(ctx):
               'error datagrams made of 0..3 ASCII bytes + 1-, 2-, 3- or 4-byte UTF-8 characters at every total byte '
               'length in windows around 256 / 1024 / 1400 bytes and around 256 characters (thorough: every length '
               '1..1500), valid and with the first / last character damaged; integer arguments (store port, findValue '
-              'page) of every digit count around 256 and around CPython\'s 4300-digit int/str limit. Non-trivial/distinct = distinct (sender, datagram bytes) other than the 12 '
+              'page) of every digit count around 256 and around CPython\'s 4300-digit int/str limit. (c) sequences: every '
+              'sequence of 2..4 datagrams over {valid ping, valid response to an in-flight request, undecodable, '
+              'schema-invalid request, unknown method, oversize unknown method, duplicate of the previous datagram} sent '
+              'to ONE live node by one sender (addressee of the in-flight requests / stranger) or alternating between the '
+              'two, the clock advancing 0 / 61 / 721 s between datagrams (quick: same gap throughout; thorough: every gap '
+              'combination); every datagram judged against the state right before it, failures counted per '
+              'report_failure call; afterwards a third party must get its ping answered. Non-trivial/distinct = distinct (sender, datagram bytes) other than the 12 '
               'unmutated ones, plus distinct codec messages.'),
         exhaustive=True,
         bounds=dict(bounds, alphabet=[bytes([b]).decode('latin1') for b in ALPHABET], valid_datagrams=12,
@@ -1254,8 +1493,10 @@ def run(ctx):
             'not issued to the sender IP is syntactically well-formed, so only the minimal reading is enforced: it '
             'must not ADD an announcement; a changed tcp port / age of an announcement the same peer already has '
             'is tallied (interpretation_only)',
-            'one datagram per execution on a fresh node: real asyncio delivers one datagram per loop iteration and '
-            'runs future callbacks before the next one',
+            'single-datagram families: one datagram per execution on a fresh node; sequences: one live node, the loop is '
+            'drained between datagrams (real asyncio delivers one datagram per loop iteration and runs future callbacks '
+            'before the next one); in sequences PeerManager.report_failure is wrapped by a counting pass-through so '
+            'that two failures at the same virtual instant are distinguishable',
             'node up for 1000 virtual seconds (token grace period over); time, os.urandom deterministic',
             f'a datagram_received call that burns {HANG_CPU_SECONDS} s of CPU is reported as a hang',
             'exceptions raised later inside the coroutine that awaits an answered request are not handler '
@@ -1265,7 +1506,9 @@ def run(ctx):
                             'malformed_request_answered_with_error_datagram', 'valid_store_changed_data_store',
                             'valid_request_answered', 'pending_request_resolved_by_response',
                             'pending_request_resolved_by_error', 'request_from_good_contact_touched_routing_table',
-                            'store_with_unissued_token_refused'],
+                            'store_with_unissued_token_refused', 'sequence_failure_recorded_for_sender_already_bad',
+                            'sequence_duplicate_response_ignored', 'sequence_third_party_ping_answered',
+                            'sequence_in_flight_request_timed_out_between_datagrams'],
     )
 
 
@@ -1273,7 +1516,11 @@ def replay(data):
     from vf.core import Result
     res = Result()
     log = []
-    if 'recipe' in data:
+    if 'sequence' in data:
+        run_sequence(tuple(data['sequence']), res, log)
+    elif data.get('recipe') == ['spoof']:
+        spoofed_id_probe(res)
+    elif 'recipe' in data:
         recipe = data['recipe']
         family, sender, datagram, desc = materialize(recipe)
         if data.get('datagram_hex') and bytes.fromhex(data['datagram_hex']) != datagram:
